@@ -208,6 +208,43 @@ def gen_config(d: Draw, idx):
 
 
 _SHIPPED_MASS = {}
+_SHIPPED_STYLE = {}
+
+
+def _style_of_config(cfg):
+    """{layer name: set of the geometric keys ('radius', 'thickness') this configuration PRESCRIBES for it}."""
+    return {name: {k for k in ('radius', 'thickness') if lc.get(k) is not None} for name, lc in (cfg.get('layers') or {}).items()}
+
+
+def shipped_style(name, world):
+    if name not in _SHIPPED_STYLE:
+        ans = None
+        try:
+            import tomllib
+            import TidalPy
+            with open(os.path.join(os.path.dirname(TidalPy.__file__), 'WorldPack', name + '.toml'), 'rb') as f:
+                ans = _style_of_config(tomllib.load(f))
+        except Exception:
+            ans = None
+        if ans is None:
+            ans = _style_of_config(world.config)
+        _SHIPPED_STYLE[name] = ans
+    return {k: set(v) for k, v in _SHIPPED_STYLE[name].items()}
+
+
+def derived_style(parent_style, nc):
+    out = {k: set(v) for k, v in (parent_style or {}).items()}
+    for lname, over in ((nc or {}).get('layers') or {}).items():
+        if not isinstance(over, dict):
+            continue
+        st = out.setdefault(lname, set())
+        for k in ('radius', 'thickness'):
+            if k in over:
+                if over[k] is None:
+                    st.discard(k)
+                else:
+                    st.add(k)
+    return out
 
 
 def shipped_mass_given(name, world):
@@ -246,7 +283,7 @@ def gen_plan(seed, tier):
         elif kind == 'derive':
             parent = d.below(n_worlds)
             nc_kind = d.weighted([('empty', 4), ('same_name', 2), ('new_name', 2), ('flag', 2), ('slices', 1), ('tides', 1),
-                                  ('tides_nested', 1), ('earlier_name', 1), ('layer_geometry', 1), ('move_core', 2), ('layer_density', 2),
+                                  ('tides_nested', 1), ('earlier_name', 1), ('layer_geometry', 3), ('move_core', 2), ('layer_density', 2),
                                   ('world_mass', 1), ('layer_flag', 1), ('withdraw_mass', 1),
                                   ('respecify_thickness', 1), ('grow_world', 1)])
             nn_kind = d.weighted([('none', 5), ('parent_name', 2), ('parent_config_name', 1), ('fresh', 2)])
@@ -344,6 +381,7 @@ class WorldChainEngine(EngineBase):
         trace = []
         harness_errors = []
         worlds = []       # (world, snapshot, meta)
+        style = {}        # id(world) -> which geometric keys the USER prescribed per layer along the chain (harness model)
         given = {}        # id(world) -> True when the USER prescribed the world's mass somewhere along its chain (harness model;
         #                   the world's own config is not trusted for this: a builder that writes a mass into it is the bug)
         stack_info = {}   # id(world) -> description of a world whose upper layers are stacked by thickness
@@ -438,7 +476,31 @@ class WorldChainEngine(EngineBase):
                 stack_info[id(new_world)] = stack_info[id(parent[0])]      # the description is inherited unchanged
             meta = '%s#%d' % (new_world.name, len(worlds))
             # ---- invariants of the new world ----
+            if op['op'] == 'build':
+                style[id(new_world)] = shipped_style(op['name'], new_world) if hasattr(new_world, 'layers') else {}
+            elif op['op'] == 'build_cfg':
+                style[id(new_world)] = _style_of_config(op['cfg'])
+            elif op['op'] == 'derive':
+                style[id(new_world)] = derived_style(style.get(id(parent[0])), nc if isinstance(nc, dict) else {})
+            else:
+                style[id(new_world)] = {k: set(v) for k, v in style.get(id(parent[0]), {}).items()}
             judge_geometry = op.get('new_config') != 'layer_geometry'
+            if not judge_geometry and isinstance(nc, dict) and nc.get('layers') and hasattr(parent[0], 'layers'):
+                # a one-key override of a layer's radius IS a complete, consistent description when nothing the user ever
+                # prescribed contradicts it: no layer of the chain was given both a radius and a thickness, the layer is not
+                # the top one and stays above the layer below it.  (Keys that the library itself wrote into a derived
+                # configuration are not the user's prescription; if they contradict the override, that is the library's bug.)
+                (lname, over), = list(nc['layers'].items())
+                pl = list(parent[0])
+                names = [L.name for L in pl]
+                if set(over) == {'radius'} and lname in names and names.index(lname) < len(names) - 1 \
+                        and all(len(v) <= 1 for v in style[id(new_world)].values()) \
+                        and all(style[id(new_world)].get(n_) == {'radius'} for n_ in names[names.index(lname):names.index(lname) + 2]):
+                    k_ = names.index(lname)
+                    below = pl[k_ - 1].radius if k_ > 0 else 0.0
+                    if over['radius'] > below * (1.0 + 1e-9):
+                        judge_geometry = True
+                        bump('probe:radius_override_judged')
             if op['op'] == 'build':
                 mass_given = shipped_mass_given(op['name'], new_world)
             elif op['op'] == 'derive':
